@@ -180,6 +180,17 @@ def main(argv=None):
                 changed = True
         if led.get(u.name) is not None and set(r['inlined']) - set(led[u.name].get('closure', {})):
             changed = True      # the unit now reaches a function it did not reach on the baseline
+        skel_now = {}
+        for q in sorted(set(closure_now) | ({'%s::%s' % tuple(u.target)} if u.target else set())):
+            rel = q.split('::')[0]
+            if rel not in skel_now:
+                try:
+                    skel_now[rel] = source.skeleton_hash(rel)
+                except Exception:
+                    skel_now[rel] = 'missing'
+        for rel, h in led.get(u.name, {}).get('skeleton', {}).items():
+            if skel_now.get(rel) != h:
+                changed = True      # a class or module the unit's functions live in changed shape (new method, decorator, base, attribute)
         for e in r['errors']:
             if e.startswith('unsupported') and (changed or not led):
                 undecided.append((u.name, e))
@@ -221,7 +232,7 @@ def main(argv=None):
                 undecided.append((u.name, 'solver unknown on %s (%s)' % (ob['name'], ob.get('reason'))))
         if desc is not None:
             new_led[u.name] = {'ast_sha256': desc['ast_sha256'], 'obligations': len(r['obligations']),
-                               'labels': sorted(set(names)), 'closure': {q: closure_now[q] for q in r['inlined'] if q in closure_now}}
+                               'labels': sorted(set(names)), 'closure': {q: closure_now[q] for q in r['inlined'] if q in closure_now}, 'skeleton': skel_now}
             old = led.get(u.name)
             if old and not changed and not args.update_ledger and old['obligations'] != len(r['obligations']) and not r['errors']:
                 crashes.append((u.name, 'ledger: obligation count %d != %d for unchanged function'
